@@ -253,7 +253,7 @@ def runCase (ops : List (List String)) : List String :=
       | some (.ok (d', out)) => go (objs.set cur d') cur rest (out :: acc)
       | some (.error f) => (f.render :: acc).reverse
       | none =>
-        -- ---- C18 table query ops (rel, symname, symvalue, arr32, arr64, versym, verneed, verdef, arrange, alarm)
+        -- ---- C18 table query ops (rel, symname, symvalue, arr32, arr64, versym, verneed, verdef, arrange, swap, alarm)
         let (o', out) := match LoadC18.step d.o t with | some r => r | none => step d.o t
         if out.startsWith "FAULT" then (out :: acc).reverse
         else go (objs.set cur { d with o := o' }) cur rest (out :: acc)
